@@ -255,6 +255,8 @@ func (cc *ClientConn) newStream(
 	err = rw.Write(ctx, &rpc)
 	if err != nil {
 		log.Error().Err(err).Msg("NewStream: failed to open")
+		// no stream (and hence no read loop) will ever release the registration
+		teardown()
 		return nil, err
 	}
 
